@@ -218,11 +218,86 @@ def downcasts(idx, func):
         elif p is not None and p['kind'] == 'ImplicitCastExpr' and p.get('castKind') == 'PointerToBoolean':
             use = 'tested'
         if use == 'deref':
+            pg = _predicate_guard(idx, func, n, parents)
+            if pg:
+                out.append(('tested', pos(n), tgt))      # a verified type predicate is as good as a null test
+                continue
             g = enclosing_guard(n)
             out.append(('deref-guarded:' + ','.join(sorted(g)) if g else 'deref-unguarded', pos(n), tgt))
         else:
             out.append(('tested', pos(n), tgt))
     return out
+
+
+def _vars_in(e):
+    return {(x.get('referencedDecl') or {}).get('id') for x in walk(e)
+            if x.get('kind') == 'DeclRefExpr' and (x.get('referencedDecl') or {}).get('kind') in ('VarDecl', 'ParmVarDecl', 'BindingDecl')}
+
+
+def _predicate_guard(idx, func, cast_node, parents):
+    """The idiom  `if (!obj->isT()) continue;  ... dynamic_cast<T*>(obj) ...`  verified semantically: an earlier sibling statement (in an
+    enclosing block of the same loop body / function) leaves when a virtual bool predicate of the same object is false, and every
+    override of that predicate that can return true belongs to a class derived from the cast's target.  Returns a reason or None."""
+    tgt = re.sub(r'^(const )?(class |struct )?', '', qt(cast_node)).replace('*', '').strip()
+    tcls = tgt if tgt in idx.records else idx._resolve_record_name(tgt.split('::')[-1], func.cls or func.qname)
+    if not tcls:
+        return None
+    obj_vars = _vars_in(children(cast_node)[0]) if children(cast_node) else set()
+    if len(obj_vars) != 1:
+        return None
+    x = cast_node
+    while id(x) in parents:
+        p = parents[id(x)]
+        if p['kind'] == 'CompoundStmt':
+            sibs = children(p)
+            i = next((j for j, s_ in enumerate(sibs) if s_ is x), None)
+            for st in (sibs[:i] if i is not None else []):
+                if st['kind'] != 'IfStmt' or st.get('hasVar') or st.get('hasInit'):
+                    continue
+                ch = children(st)
+                cond = strip(ch[0])
+                if not (cond['kind'] == 'UnaryOperator' and cond.get('opcode') == '!'):
+                    continue
+                call = strip(children(cond)[0])
+                if call['kind'] != 'CXXMemberCallExpr' or call_args(call):
+                    continue
+                then = ch[1]
+                body = children(then) if then['kind'] == 'CompoundStmt' else [then]
+                if not (body and body[-1]['kind'] in ('ContinueStmt', 'ReturnStmt', 'BreakStmt') or any(y['kind'] == 'CXXThrowExpr' for y in walk(then))):
+                    continue
+                if body and body[-1]['kind'] == 'BreakStmt':
+                    continue
+                kind, name, did, obj = callee_of(call)
+                if obj is None or _vars_in(obj) != obj_vars:
+                    continue
+                pred = idx.func_by_id.get(did) if did else None
+                if pred is None or not pred.cls:
+                    continue
+                # all overrides of the predicate
+                from .callgraph import overriders
+                root = pred
+                ok = True
+                trues = []
+                for o in overriders(idx, root):
+                    o2 = o.defn if (o.body is None and getattr(o, 'defn', None)) else o
+                    if o2.body is None and (o2.node.get('pure') or o.node.get('pure')):
+                        continue
+                    if o2.body is None:
+                        ok = False
+                        break
+                    rets = [r for r in walk(o2.body) if r['kind'] == 'ReturnStmt']
+                    vals = [cast.const_int(children(r)[0], idx) if children(r) else None for r in rets]
+                    if any(v is None for v in vals):
+                        ok = False
+                        break
+                    if any(v != 0 for v in vals):
+                        trues.append(o2.cls)
+                if ok and trues and all(idx.derives_from(c, tcls) for c in trues):
+                    return 'after `if (!%s()) ...` at %s: %s() can only be true in %s' % (name, pos(st), name, sorted(set(trues)))
+        if p['kind'] in ('ForStmt', 'WhileStmt', 'DoStmt', 'CXXForRangeStmt') and False:
+            break
+        x = p
+    return None
 
 
 def _null_test(x, vid):
